@@ -1430,6 +1430,109 @@ func sourcePins() string {
 	return sb.String()
 }
 
+// byteKernel: a function `func f(c byte) T` whose body is a tagless switch of `return`s followed by a final return,
+// with conditions and results built from c, character/integer literals, comparisons, && || and + - on bytes
+// (url/escape.go: ishex, unhex).  Emitted as a UInt8 function; UInt8 arithmetic wraps like Go's byte.
+func byteKernel(fd *ast.FuncDecl, leanName string) string {
+	if fd.Type.Params == nil || len(fd.Type.Params.List) != 1 || len(fd.Type.Params.List[0].Names) != 1 {
+		fail("%s: one parameter expected", leanName)
+	}
+	if id, ok := fd.Type.Params.List[0].Type.(*ast.Ident); !ok || id.Name != "byte" {
+		fail("%s: parameter must be a byte", leanName)
+	}
+	param := fd.Type.Params.List[0].Names[0].Name
+	if fd.Type.Results == nil || len(fd.Type.Results.List) != 1 {
+		fail("%s: one result expected", leanName)
+	}
+	rt, ok := fd.Type.Results.List[0].Type.(*ast.Ident)
+	if !ok || (rt.Name != "bool" && rt.Name != "byte") {
+		fail("%s: result must be bool or byte", leanName)
+	}
+	leanT := map[string]string{"bool": "Bool", "byte": "UInt8"}[rt.Name]
+	var tr func(x ast.Expr) string
+	tr = func(x ast.Expr) string {
+		switch e := x.(type) {
+		case *ast.ParenExpr:
+			return tr(e.X)
+		case *ast.Ident:
+			switch e.Name {
+			case param:
+				return "c"
+			case "true", "false":
+				return e.Name
+			}
+			fail("%s: unknown identifier %s", leanName, e.Name)
+		case *ast.BasicLit:
+			switch e.Kind {
+			case token.CHAR:
+				r, _, _, err := strconv.UnquoteChar(e.Value[1:len(e.Value)-1], '\'')
+				if err != nil || r > 255 {
+					fail("%s: character literal %s", leanName, e.Value)
+				}
+				return fmt.Sprintf("(%d : UInt8)", r)
+			case token.INT:
+				n, err := strconv.ParseInt(e.Value, 0, 64)
+				if err != nil || n < 0 || n > 255 {
+					fail("%s: integer literal %s", leanName, e.Value)
+				}
+				return fmt.Sprintf("(%d : UInt8)", n)
+			}
+		case *ast.BinaryExpr:
+			a, b := tr(e.X), tr(e.Y)
+			switch e.Op {
+			case token.LAND:
+				return "(" + a + " && " + b + ")"
+			case token.LOR:
+				return "(" + a + " || " + b + ")"
+			case token.LEQ:
+				return "decide (" + a + " ≤ " + b + ")"
+			case token.LSS:
+				return "decide (" + a + " < " + b + ")"
+			case token.GEQ:
+				return "decide (" + b + " ≤ " + a + ")"
+			case token.GTR:
+				return "decide (" + b + " < " + a + ")"
+			case token.EQL:
+				return "(" + a + " == " + b + ")"
+			case token.NEQ:
+				return "(" + a + " != " + b + ")"
+			case token.ADD:
+				return "(" + a + " + " + b + ")"
+			case token.SUB:
+				return "(" + a + " - " + b + ")"
+			}
+		}
+		fail("%s: expression outside the subset: %s", leanName, exprString(x))
+		return ""
+	}
+	if len(fd.Body.List) != 2 {
+		fail("%s: body must be a switch followed by a return", leanName)
+	}
+	sw, ok := fd.Body.List[0].(*ast.SwitchStmt)
+	if !ok || sw.Tag != nil || sw.Init != nil {
+		fail("%s: tagless switch expected", leanName)
+	}
+	last, ok := fd.Body.List[1].(*ast.ReturnStmt)
+	if !ok || len(last.Results) != 1 {
+		fail("%s: final return expected", leanName)
+	}
+	var sb strings.Builder
+	fmt.Fprintf(&sb, "def %s (c : UInt8) : %s :=\n", leanName, leanT)
+	for _, st := range sw.Body.List {
+		cc := st.(*ast.CaseClause)
+		if len(cc.List) != 1 || len(cc.Body) != 1 {
+			fail("%s: each case must have one condition and one return", leanName)
+		}
+		ret, ok := cc.Body[0].(*ast.ReturnStmt)
+		if !ok || len(ret.Results) != 1 {
+			fail("%s: case body must be a return", leanName)
+		}
+		fmt.Fprintf(&sb, "  if %s then %s else\n", tr(cc.List[0]), tr(ret.Results[0]))
+	}
+	fmt.Fprintf(&sb, "  %s\n", tr(last.Results[0]))
+	return sb.String()
+}
+
 type fragment struct {
 	name string
 	gen  func() string
@@ -1601,6 +1704,8 @@ structure MethodFacts where
 		{"upperhex", func() string {
 			return "def upperhex : String := " + leanStr(stringConst(mustFile("url/escape.go"), "upperhex")) + "\n"
 		}},
+		{"ishex", func() string { return byteKernel(mustFunc("url/escape.go", "ishex"), "ishex") }},
+		{"unhex", func() string { return byteKernel(mustFunc("url/escape.go", "unhex"), "unhex") }},
 		{"defaultPorts", func() string { return defaultPorts(mustFunc("url/url.go", "isDefaultURLPort")) }},
 		{"specialProtocols", func() string {
 			return stringSwitchSet(mustFunc("url/url.go", "isSpecialProtocol"), "specialProtocols")
